@@ -69,6 +69,13 @@ def pow_expect(v, w):
     return ','.join(out)
 
 
+def field_ops_expect(v, w):
+    """ff::Field / PrimeField arithmetic on canonical v, w: square, double, cube, is_zero (ct, vartime), is_odd, is_even,
+    +, *, v^5, and pow / pow_vartime with exponents of 1, 4, 5, 8 limbs"""
+    return [to32(v * v % L).hex(), to32(2 * v % L).hex(), to32(pow(v, 3, L)).hex(), B(v == 0), B(v == 0), B(v & 1),
+            B(not v & 1), to32((v + w) % L).hex(), to32(v * w % L).hex(), to32(pow(v, 5, L)).hex(), pow_expect(v, w)]
+
+
 def consts_expect(toks):
     fs = factor_check()
     mod = int(toks[0], 16)
@@ -138,10 +145,7 @@ def scalars(ctx, n):
         else:
             ctx.add('gp.invert', cs(v), expect=['some', to32(ref.sc_inv(v)).hex()], cls='invert:nonzero')
         w = vals.canon_scalar(rng)[1]
-        ctx.add('gp.field_ops', cs(v), cs(w),
-                expect=[to32(v * v % L).hex(), to32(2 * v % L).hex(), to32(pow(v, 3, L)).hex(), B(v == 0), B(v == 0), B(v & 1),
-                        B(not v & 1), to32((v + w) % L).hex(), to32(v * w % L).hex(), to32(pow(v, 5, L)).hex(),
-                        pow_expect(v, w)], cls='field-ops')
+        ctx.add('gp.field_ops', cs(v), cs(w), expect=field_ops_expect(v, w), cls='field-ops')
         if rng.random() < 0.3:
             # sqrt_ratio(num, div): (true, sqrt(num/div)) if square ...
             d = rng.choice([0, w])
